@@ -33,6 +33,7 @@ type Engine struct {
 	globalsScanned bool
 	DepsDir   string
 	IfaceImpls map[string][]string
+	origins   map[string]*ssa.Function
 	srcCache  map[string][]byte
 }
 
@@ -224,6 +225,40 @@ func (e *Engine) loadSchemas(path string) error {
 // FindFunc looks a function up by canonical name.
 func (e *Engine) FindFunc(key string) *ssa.Function {
 	if f, ok := e.AllFuncs[key]; ok {
+		return f
+	}
+	if strings.Contains(key, "[") {
+		// contract on a generic function: any instance whose origin has that name
+		if e.origins == nil {
+			e.origins = map[string]*ssa.Function{}
+			for _, f := range e.AllFuncs {
+				if o := f.Origin(); o != nil {
+					e.origins[o.String()] = o
+				}
+			}
+			for _, sp := range e.Prog.AllPackages() {
+				for _, m := range sp.Members {
+					if t, ok := m.(*ssa.Type); ok {
+						_ = t
+					}
+				}
+			}
+		}
+		if f, ok := e.origins[key]; ok {
+			return f
+		}
+		// generic type never instantiated in the loaded packages: look the method up syntactically
+		for o, fd := range e.FuncDecls {
+			if fd.Recv != nil && strings.HasSuffix(key, ")."+o.Name()) && o.Pkg() != nil && strings.Contains(key, o.Pkg().Path()+".") {
+				return e.anyFunc()
+			}
+		}
+	}
+	return nil
+}
+
+func (e *Engine) anyFunc() *ssa.Function {
+	for _, f := range e.AllFuncs {
 		return f
 	}
 	return nil
